@@ -18,11 +18,13 @@ pub const STATES: [(f32, f32, f32); 2] = [(1.0, -2.0, 0.5), (-4.0, 3.0, 2.0)];
 pub const NT: usize = 9;
 pub const TARGETS: [Command; NT] = [
     Command::Position(3.0),
-    Command::Position(-1.0),
+    // (the second value of each kind is the negation of the first: opposite-signed values of
+    // different kinds are where bit-level encodings of a command collide)
+    Command::Position(-3.0),
     Command::Velocity(3.0),
-    Command::Velocity(-1.0),
+    Command::Velocity(-3.0),
     Command::Acceleration(3.0),
-    Command::Acceleration(-1.0),
+    Command::Acceleration(-3.0),
     // one f32 ulp away from the first value of each kind: a *different* command
     Command::Position(3.000_000_2),
     Command::Velocity(3.000_000_2),
